@@ -591,7 +591,7 @@ def fold_func(prog, f, args, depth=0):
     return None
 
 
-def through_locals(fnode, expr):
+def through_locals(fnode, expr, as_node=False):
     """Text of expr with every name that the function binds exactly once (plain assignment, not a parameter) replaced by the text of
     the bound value -- `range(max(1, iterations))` reads as `range(max(1, options.get('iterations', 1)))`."""
     import copy
@@ -608,6 +608,10 @@ def through_locals(fnode, expr):
     single = {n_: v for n_, v in value.items() if count.get(n_) == 1 and n_ not in params}
 
     class _S(ast.NodeTransformer):
+        def visit_Attribute(self, node):
+            # `name.attr` stays: the object a local names is not an expression worth reading through
+            return node if isinstance(node.value, ast.Name) else self.generic_visit(node)
+
         def visit_Name(self, node):
             if isinstance(node.ctx, ast.Load) and node.id in single:
                 return copy.deepcopy(single[node.id])
@@ -615,7 +619,7 @@ def through_locals(fnode, expr):
     e = copy.deepcopy(expr)
     for _ in range(3):
         e = _S().visit(e)
-    return norm(e)
+    return e if as_node else norm(e)
 
 
 def try_const(node, env=None, default=None):
